@@ -14,12 +14,17 @@ THEOREMS = [
     "table_valid_generic_step",
     "table_used_generic",
     "table_valid_ising",
+    "table_valid_after_swap",
+    "table_valid_ising_pair",
+    "table_valid_generic_pair",
 ]
 
 RULE = ("tables: random sequences of make_*interaction (1-4 variables; 3-/4-variable diagonal terms via make_diagonal_interaction with the maximum at every sub-state index) / set_do_heatbath / diagonal_update on Qmc and of set_enable_heatbath / "
         "single_diagonal_step / timestep on QmcIsingGraph (2-4 spins, J of both signs and unequal magnitude, h in {0, 1/4, -1/2, 1}, RVB on for half), "
         "the stored table read from the serde snapshot after every operation; isingham: the sampler's own matrix elements on all patterns; "
-        "sweeps: exact trajectory of single_diagonal_step / diagonal_update on warmed-up samplers, heat-bath on (3/4) and off, replayed by the model; "
+        "pairs: two Ising samplers in a TemperingContainer (same edges and signs, different |J|, Gamma, |h|, heat-bath toggled on either) and two generic samplers with equal interaction lists: "
+        "set_enable_heatbath / steps / swap_manager_and_state in both call directions / tempering_step with a scripted container RNG (accepted swaps) interleaved, each sampler's table compared after every call with the table of its OWN Hamiltonian; "
+        "sweeps: (1/8 of the Ising samplers carry the operator string of such a partner after an odd number of swaps) exact trajectory of single_diagonal_step / diagonal_update on warmed-up samplers, heat-bath on (3/4) and off, replayed by the model; "
         "prob: threshold bisection of attempt / bond / rejection words of a random empty slot inside a public diagonal step (prefix scripted so that "
         "earlier removals change n) and of the removal word in the next sweep; oracle on measured numbers: p_insert/p_remove = beta*w/(L-n). "
         "Non-trivial = every case (each has at least one operation / visited slot); distinct = distinct input line.")
@@ -31,6 +36,7 @@ def main(ck):
         ck.audit("QmcProps.C02", ["Qmc.C02." + t for t in THEOREMS])
     if ck.cargo_build(BINS):
         ck.correspond("table-invariant", "drv_c02", ck.harness("c02", ["tables"]))
+        ck.correspond("table-invariant-under-swaps", "drv_c02", ck.harness("c02", ["pairs"]))
         ck.correspond("sampler-sweeps", "drv_c02", ck.harness("c02", ["sweeps"]))
         ck.correspond("sampler-probabilities", "drv_c02", ck.harness("c02", ["prob"]))
     ck.assumptions.append("partial: ergodicity/convergence of the chain and the SSE representation theorem (weight -> thermal state) are mathematics outside the model; "
